@@ -177,7 +177,9 @@ Definition is_digit_of (b : Z) (upper : bool) (c : Z) : bool :=
   let d := digit_val c in (0 <=? d) && (d <? b) && (c =? digit_char upper d).
 
 (* ---------- the 'c' format ---------- *)
-Inductive cres := CText (chars : list Z) | COverflowError | CValueError | CUnicodeDecodeError.
+(* CAbort: a byte >= 0x80 is written into a PyUnicode_New(n, 127) string (PyUnicode_WRITE's assert
+   fires unless NDEBUG; with NDEBUG the string object is corrupt) *)
+Inductive cres := CText (chars : list Z) | COverflowError | CValueError | CUnicodeDecodeError | CAbort.
 
 (* the test in __Pyx_uchar_PyUnicode_From_<T>; true = value accepted.
    fixed = false is the text as it is:
@@ -206,7 +208,8 @@ Definition from_ordinal_padded (iv ulength pad : Z) : cres :=
     else                                                     (* 4 bytes: only bits 0..20 are encoded *)
       let cp := iv mod 2097152 in
       if (65536 <=? cp) && (cp <=? 1114111) then CText (pads ++ [cp]) else CUnicodeDecodeError
-  else if iv <=? 127 then CText (pads ++ [iv mod 256])       (* BuildFromAscii(ulength, {(char)value}, 1, 0, pad) *)
+  else if iv <=? 127 then                                    (* BuildFromAscii(ulength, {(char)value}, 1, 0, pad) *)
+    (if iv <? 0 then CAbort else CText (pads ++ [iv]))
   else match from_ordinal iv with
        | CText l => CText (pads ++ l)
        | e => e
